@@ -86,7 +86,11 @@ def cases(tier, seed):
 
 
 def field_lists(names):
-    return [[names[0]], [names[2], names[0]], ["grid_level"], [names[1], "grid_level"], ["all"], names[1]]
+    fl = [[names[0]], [names[2], names[0]], ["grid_level"], [names[1], "grid_level"], ["all"], names[1]]
+    if len(names) >= 5:
+        # the ends of a consecutive run around a permuted interior; a repeated field and a gap
+        fl += [[names[1], names[3], names[2], names[4]], [names[0], names[0], names[2]]]
+    return fl
 
 
 def run_case(case, workdir):
